@@ -88,8 +88,10 @@ void init() { if ("/t/c09d"->fault("init")) error("fault in init\n"); }
 HB = r'''
 int n;
 void create() { seteuid(getuid()); set_heart_beat(1); }
-void heart_beat() { n++; "/t/c09d"->note(({ "hb", file_name(this_object()), time() })); if (NAME == "faulty" && "/t/c09d"->fault("heart_beat")) error("fault in heart_beat\n"); }
-int reset() { "/t/c09d"->note(({ "reset", file_name(this_object()) })); if ("/t/c09d"->fault("reset")) error("fault in reset\n"); return 1; }
+// (for these two sites the kinds other than "error" all mean: the object destructs itself inside the task)
+void boom(string site) { if ("/t/c09d"->query_kind() != "error" && NAME == "faulty") { destruct(this_object()); return; } error("fault in " + site + "\n"); }
+void heart_beat() { n++; "/t/c09d"->note(({ "hb", file_name(this_object()), time() })); if (NAME == "faulty" && "/t/c09d"->fault("heart_beat")) boom("heart_beat"); }
+int reset() { "/t/c09d"->note(({ "reset", file_name(this_object()) })); if ("/t/c09d"->fault("reset")) boom("reset"); return 1; }
 int query() { return query_heart_beat(this_object()); }
 '''
 
@@ -198,7 +200,7 @@ def evaluate_case(ctx, pool, case):
     er = res.step(fin - 1)
     errs = [x for x in unjson(er["v"])[1]] if er and er.get("st") == "val" else []
     reported = " ".join(str(e) for e in errs) + res.stderr
-    USER_SITES = ("cmd", "process_input", "logon", "net_dead", "write_prompt", "terminal_type", "window_size", "input_to")
+    USER_SITES = ("cmd", "process_input", "logon", "net_dead", "write_prompt", "terminal_type", "window_size", "input_to", "heart_beat", "reset")
     for f in fired:
         if case.get("kind", "error") != "error" and f[1] in USER_SITES:
             continue       # this user-object task did not raise an error: it took its object or its connection away
